@@ -12,6 +12,7 @@ import TTModel.Sweep
 import TTModel.Kernels
 import TTModel.Cross
 import TTModel.Manifold
+import TTModel.Decomp
 import TTModel.Scalar
 /-!
 # Line-protocol driver: one operation per input line, one canonical outcome per output line.
@@ -172,6 +173,13 @@ def guardSh : PM Guard.Sh := do
   let N ← natList; let M ← natList
   pure { isTTM := k == "M", N := N, M := M }
 
+/-- multi-index of a flat row-major position -/
+def unflat : List Nat → Nat → Nat → List Nat
+  | [], _, _ => []
+  | n :: ns, j, total =>
+    let rest := total / n
+    (j / rest) :: unflat ns (j % rest) rest
+
 def sameModesB (xs ys : List (Core S)) : Bool :=
   xs.length == ys.length && (xs.zip ys).all (fun p => p.1.m == p.2.m && p.1.n == p.2.n)
 
@@ -314,6 +322,17 @@ def run : PM String := do
       let (_, P) ← dense; let x ← core; let y ← core
       let r := Kern.phiBckX (fun a c => P [a,c]) x y
       pure (showDense [x.r0, y.r0] (fun i => r (i.getD 0 0) (i.getD 1 0)))
+  | "tott" => do
+      let cap ← nat; let (dims, f) ← dense
+      let total := dims.foldl (· * ·) 1
+      let A : Nat → S := fun j => f (unflat dims j total)
+      pure (showTT false ((Decomp.toTT (Decomp.idOracle cap) dims A).map freeze))
+  | "lrorth" => do
+      let (_, x) ← tt
+      pure (showTT false ((Decomp.lrOrth (Decomp.idOracle 1000000) x).map freeze))
+  | "roundtt" => do
+      let cap ← nat; let (_, x) ← tt
+      pure (showTT false ((Decomp.roundTT (Decomp.idOracle 1000000) (Decomp.idOracle cap) x).map freeze))
   | "delta2cores" => do
       let (k, ls) ← tt; let (_, rs) ← tt; let (_, ds) ← tt
       pure (showTT k ((Manifold.delta2cores ls rs ds).map freeze))
